@@ -57,6 +57,12 @@ BomLen(raw, enc) ==
     ELSE IF enc /\ (StartsAt(raw, 0, Len(raw), <<254, 255>>) \/ StartsAt(raw, 0, Len(raw), <<255, 254>>)) THEN 2
     ELSE 0
 StripBom(raw, enc) == SubSeq(raw, BomLen(raw, enc) + 1, Len(raw))
+\* The same for a source that delivers the input in pieces, `first` = size of the first piece.  The design (what C14
+\* demands: the result does not depend on the pieces) strips the mark whatever the pieces are.  Deviation "C14-1" is what
+\* the buffered sources do (impl_buffered_source!: remove_utf8_bom / detect_encoding look at ONE fill_buf result): a
+\* first piece that does not contain the whole mark leaves it in the stream.  (C02 exempts this sniff explicitly.)
+SniffLen(raw, first, enc, dev) ==
+    IF "C14-1" \in dev /\ first < BomLen(raw, enc) THEN 0 ELSE BomLen(raw, enc)
 
 ---------------------------------------------------------------------------
 \* ReaderState::emit_bang.  [lo,hi) = bytes after '<' up to the '>' (starts
